@@ -28,6 +28,7 @@ class Page(HTMLParser):
         HTMLParser.__init__(self, convert_charrefs=True)
         self.ids = []
         self.links = []     # [href, text]
+        self.base = None    # <base href=...>: relative and fragment-only links resolve against it
         self._open = []
 
     def handle_starttag(self, tag, attrs):
@@ -36,6 +37,8 @@ class Page(HTMLParser):
             self.ids.append(a['id'])
         if 'name' in a and tag == 'a' and a.get('name') != a.get('id'):
             self.ids.append(a['name'])      # <a name=..> is a link target as well
+        if tag == 'base' and a.get('href'):
+            self.base = a['href']
         if 'href' in a and tag in ('a', 'link'):
             self.links.append([a['href'], '', tag, 'title=%s class=%s' % (a.get('title'), a.get('class'))])
             if tag == 'a':
@@ -45,6 +48,8 @@ class Page(HTMLParser):
         a = dict(attrs)
         if 'id' in a:
             self.ids.append(a['id'])
+        if tag == 'base' and a.get('href'):
+            self.base = a['href']
         if 'href' in a and tag in ('a', 'link'):
             self.links.append([a['href'], '', tag, 'title=%s class=%s' % (a.get('title'), a.get('class'))])
 
@@ -104,6 +109,9 @@ def document(cls, units, variant, numdepth=3):
                 s += ' \\begin{enumerate}\\item x\\item\\label{li1} y\\end{enumerate} \\ref{le0}\\pageref{lb0}\\index{alpha}'
             if i == k - 1:
                 s += '\n\n\\index{gamma}\\index{alpha}\n\n'       # index entries that form a paragraph of their own
+                # a label spelled like a generated identifier; link targets inside an argument of a childless element
+                s += ' \\begin{enumerate}\\item\\label{a2} p\\item q\\end{enumerate} \\ref{a2} \\ref{lt1}'
+                s += ' \\begin{description}\\item[T\\index{delta}]\\item[\\label{lt1}U] u\\end{description} m\\marginpar{n\\index{eps}}'
                 # initials that transliterate to two letters, next to entries of the same letter group
                 s += ' \\index{\\AE ther}\\index{abacus}\\index{afar}\\index{\\OE uvre}\\index{omega}\\index{3D}'
                 s += ' z\\footnote{fqbz} v\\footnote{fqsz}\\index{\\_ua}\\index{\\_ub} \\begin{equation}c\\label{le9}\\end{equation}\\ref{le9}'
@@ -136,6 +144,12 @@ def analyse(files, base, cls, units, variant, src, has_toc=True):
             problems.append('%s: duplicate ids %s' % (fn, dup))
         for href, text, tag, deco in p.links:
             h = href
+            if p.base and not re.match(r'^[a-z]+://', h):
+                # the page declares a base URL: a link without scheme -- also a bare #fragment -- is resolved against it
+                from urllib.parse import urljoin
+                h = urljoin(p.base, h)
+                if h.split('#')[0].endswith('/'):
+                    h = h.replace('#', 'index.html#', 1) if '#' in h else h + 'index.html'
             if base and h.startswith(base):
                 h = h[len(base):]
             elif base and h.startswith(base.rstrip('/')):
